@@ -445,7 +445,16 @@ func upstreamProcsForProc(proc WorkflowProcess) map[string]WorkflowProcess {
 		}
 	}
 	for _, pip := range proc.InParamPorts() {
+		// Feeder go-routines started by FromStr/FromInt/FromFloat might close
+		// their connection (and so delete from the RemotePorts map) at any
+		// time, so we iterate over a copy taken under the port's lock
+		pip.closeLock.Lock()
+		remotePorts := []*OutParamPort{}
 		for _, rpp := range pip.RemotePorts {
+			remotePorts = append(remotePorts, rpp)
+		}
+		pip.closeLock.Unlock()
+		for _, rpp := range remotePorts {
 			// Feeder ports created by FromStr/FromInt/FromFloat belong to
 			// the receiving process itself, which is not its own upstream
 			if rpp.Process() == proc {
